@@ -429,13 +429,13 @@ def check_queue_pairing(ctx, rule, sites, single_consumer_ok=None, single_produc
         nc_push = [s for s in pushes if s["concurrent"] is False]
         if nc_pop:
             fns = set(s["fn"].key for s in pops)
-            ok = len(fns) == 1 or (single_consumer_ok is not None and single_consumer_ok(field, pops))
+            ok = single_consumer_ok(field, pops) if single_consumer_ok is not None else len(fns) == 1
             ctx.ob(rule + "c", "%s: non-concurrent pop" % field, ok, "%s:%s" % (nc_pop[0]["fn"].file, nc_pop[0]["line"]),
                    "queue '%s' is popped with CONCURRENT=false but from more than one function (%s): two consumers may "
                    "take the same ticket" % (field, sorted(short(s["fn"]) for s in pops)[:4]), site="%s@pop" % field)
         if nc_push:
             fns = set(s["fn"].key for s in pushes)
-            ok = len(fns) == 1 or (single_producer_ok is not None and single_producer_ok(field, pushes))
+            ok = single_producer_ok(field, pushes) if single_producer_ok is not None else len(fns) == 1
             ctx.ob(rule + "d", "%s: non-concurrent push" % field, ok, "%s:%s" % (nc_push[0]["fn"].file, nc_push[0]["line"]),
                    "queue '%s' is pushed with CONCURRENT=false from more than one function" % field, site="%s@push" % field)
     return by_field
